@@ -2,6 +2,8 @@ import KyupyVerif.Proofs.PermExec
 import KyupyVerif.Proofs.Perm
 import KyupyVerif.Proofs.Levelise
 import KyupyVerif.Proofs.Capture
+import KyupyVerif.Proofs.MapSound
+import KyupyVerif.Props.C08
 /-! # C07 — the published level partition is a valid parallel schedule
 
 Signal level (all op programs — theorems): ops that are pairwise independent may run in any order
@@ -9,8 +11,9 @@ Signal level (all op programs — theorems): ops that are pairwise independent m
 correspondence) puts every writer strictly before its readers (`levelise_valid`), and the Boolean
 certificate `levelIndepB` — evaluated on the REAL ops of every level of every generated circuit — implies
 the independence hypothesis. Memory level: `threads_any_order` (footprint-disjoint threads commute, whole
-memory incl. stale cells) is proved generically; that the real memory map yields disjoint footprints is the
-map certificate of C08 (per instance). Accumulated activity is order independent (`abuf_any_order`). -/
+memory incl. stale cells) is proved generically; `memory_any_schedule`: when the map certificate of C08 accepts the
+REAL tables, every duplicate-free execution order that respects `level_starts` leaves the same values in every observed
+memory region (whatever the value domain and storage discipline) — the certificate itself is evaluated per instance. Accumulated activity is order independent (`abuf_any_order`). -/
 namespace KV.C07
 open KV KV.Sig
 
@@ -59,6 +62,26 @@ theorem levels_any_order {α} (sem : Op → List α → α) (ls ls' : List (List
     (hc : ∀ lv ∈ ls, levelIndepB lv = true) (env : Nat → α) :
     ls.foldl (fun e lv => execG sem lv e) env = ls'.foldl (fun e lv => execG sem lv e) env :=
   levels_perm sem ls ls' hlen hp (fun lv hl => levelIndepB_sound lv (hc lv hl)) env
+
+/-- **memory level**: with an accepted map certificate (C08, evaluated on the real `ops`, `level_starts`, `c_locs`,
+    `c_caps`), any two execution orders `s1 s2` of the op rows that contain every op once and never run an op of a
+    later level before one of an earlier level (`schedOKB`: e.g. program order, or the ops of each level in any thread
+    interleaving) leave the same value in every output slot — although memory regions are shared between signals with
+    disjoint life times and stale data differ. Any value domain, op semantics and storage discipline. -/
+theorem memory_any_schedule {α C : Type} (p : MapIn) (hc : p.check = none) (R : MapSound.RW α C)
+    (sem : OpRow → List α → α) (s1 s2 : List Nat) (h1 : p.schedOKB s1 = true) (h2 : p.schedOKB s2 = true)
+    (hfit : ∀ o ∈ p.ops, ∀ args m,
+      R.rd (p.loc o.out) (p.cap o.out) (R.wr (p.loc o.out) (p.cap o.out) (sem o args) m) = sem o args)
+    (m0 : Int → C) (env0 : Nat → α)
+    (h0 : ∀ x ∈ p.tracked, (∀ o ∈ p.ops, o.out ≠ x) → MapSound.rdS p R x m0 = env0 x) :
+    ∀ j s, (j, s) ∈ p.ppoSrcs →
+      MapSound.rdS p R j (MapSound.memRun p R sem (MapSound.schedOps p s1) m0)
+        = MapSound.rdS p R j (MapSound.memRun p R sem (MapSound.schedOps p s2) m0) :=
+  MapSound.check_sound_any_order p hc R sem s1 s2 (MapSound.schedOKB_sound p s1 h1).1 (MapSound.schedOKB_sound p s2 h2).1
+    (MapSound.schedOKB_sound p s1 h1).2 (MapSound.schedOKB_sound p s2 h2).2 hfit m0 env0 h0
+
+example : C08.demoMap.schedOKB [0, 1, 2, 3, 4, 5] = true ∧ C08.demoMap.schedOKB [1, 0, 3, 2, 4, 5] = true ∧
+    C08.demoMap.schedOKB [0, 2, 1, 3, 4, 5] = false := by decide +kernel
 
 /-- the levelisation of `SimOps`: an op that writes a signal is placed in a strictly earlier level than every
     later op that reads it (no op reads a signal produced in its own or a later level) — every op list -/
